@@ -37,6 +37,28 @@ def run(tier):
     not_distinct = [src for out, src in pairs if not fam.temporaries_distinct(out)]
     for src in not_distinct[:5]:
         rep.violation({"property": "C09", "kind": "sce", "descriptor": "C09:temporaries-not-distinct", "src": src, "configs": ["ast.unparse/chain_call/if_expr"], "inputs": None, "divergence": "temporaries-collide", "what": "two __ol_ temporaries of one output share a random suffix"})
+    # provenance of every random suffix: produced by a unique_id() call of the same conversion
+    from oneliner.config import Configs
+
+    nest = [(d, s) for d, s in fam.nested_pairs() if runs_clean(s)]
+    prov_checked = 0
+    prov_bad = 0
+    for d, src in nest + [("C09:prov:" + dd, ss) for dd, ss in list(c01.repo_scripts(common.REPO))]:
+        for w, i in (common.SEM_CONFIGS if tier == "thorough" else common.SEM_CONFIGS[:1]):
+            c = Configs()
+            c.unparser, c.expr_wrapper, c.if_style = "ast.unparse", w, i
+            try:
+                r = fam.suffix_provenance(ol, src, c)
+            except Exception:
+                continue
+            if r is None:
+                rep.harness_error("oneliner.utils.unique_id not found: suffix provenance cannot be checked")
+                break
+            prov_checked += 1
+            foreign, made, out = r
+            if foreign and prov_bad < 5:
+                prov_bad += 1
+                rep.violation({"property": "C09", "kind": "sce", "descriptor": d + ":suffix-provenance", "src": src, "configs": ["ast.unparse/%s/%s" % (w, i)], "inputs": None, "divergence": "temporaries-collide", "what": "temporary suffix(es) %s of the output were not generated during this conversion (%d unique_id() calls): the name is shared by every use of the construct" % (foreign, made)})
     rnd = random.Random(seed)
     if tier == "quick":
         control = [c for c in cells if c[0].startswith("C09:%s:" % fam.CONTROL)]
@@ -44,6 +66,7 @@ def run(tier):
         chosen = control + rnd.sample(rest, min(len(rest), 700))
     else:
         chosen = cells
+    chosen = list(chosen) + nest
     tpls = []
     dropped = 0
     for k, (desc, src) in enumerate(chosen):
@@ -66,8 +89,10 @@ def run(tier):
     cov["inconclusive_obligations"] = agg["inconclusive"][:50]
     cov["masked_templates_count"] = len(set(agg["masked"]))
     cov["outputs_checked_for_distinct_temporaries"] = len(pairs)
+    cov["nested_pairs_programs"] = len(nest)
+    cov["suffix_provenance_conversions"] = prov_checked
     cov["functions_encoded"] = ["oneliner.convert_code_string (concrete)", "converted text (symbolic): every lowering that introduces helper names (PendingWhile, PendingFor + presets.iter_wrapper, PendingClassDef loader, PendingImport/ImportFrom, assign_tuple_list, PendingAugAssign, utils.chain_call_wrapper, Namespace*.get_assign)", "oneliner.utils.unique_id (real RNG; distinctness of temporaries)"]
-    cov["bounds"] = "identifier set = static list of helper names and builtins the generated code calls + every non-__ol_ identifier the converter is observed to emit in this run + one control name; x 10 roles x %d features; stored values symbolic ints a, b" % len(fam.FEATURES)
+    cov["bounds"] = "identifier set = static list of helper names and builtins the generated code calls + every non-__ol_ identifier the converter is observed to emit in this run + one control name; x 10 roles x %d features; stored values symbolic ints a, b; distinctness of temporaries: %d constructs that introduce temporaries, every ordered nesting pair, every unordered sequence pair, every 3-deep self nesting (%d programs), plus suffix provenance of every output" % (len(fam.FEATURES), len(fam.NEST), len(nest))
     cov["explanation"] = "each cell is a small program in which the identifier is bound in the given role and read inside and after the feature's context; co-execution under CrossHair decides that the converted program behaves like the source for all a, b; the control identifier proves that the cell's program itself is inside the supported fragment"
     rep.assumptions += ["identifiers starting with __ol_ are reserved (excluded by the property)", "cells whose source raises are outside the fragment"]
     return rep.finish()
